@@ -98,6 +98,7 @@ Decos == <<"plain", "comments", "trailing", "blank", "tabs", "upper", "lower",
 Nums  == <<"exp", "EXP", "fixed", "plus", "bare">>
 Lbs   == <<"std", "narrow", "one">>
 Accs  == <<"load", "fload", "settype", "ts-ext", "reuse">>
+Tols  == <<"none", "version10", "noend", "wrongext">>
 UnitSeq == <<"hz", "khz", "mhz", "ghz">>
 FmtSeq  == <<"ri", "ma", "db">>
 MfSeq   == <<"full", "upper", "lower">>
@@ -112,7 +113,7 @@ Base(c) ==
              ELSE IF V1Possible(c) THEN "21_12" ELSE "12_21",
      perm |-> StdPerm, omit |-> {}, kwp |-> KwPerms[1], ref |-> FALSE,
      mfx |-> FALSE, noise |-> FALSE, deco |-> "plain", num |-> "exp",
-     lb |-> "std", acc |-> "load"]
+     lb |-> "std", acc |-> "load", tol |-> "none"]
 
 (* make the dependent fields consistent after one field was changed *)
 Fix(c, s) ==
@@ -127,6 +128,8 @@ Fix(c, s) ==
                   ELSE IF fr = "v1" THEN "21_12"
                   ELSE IF s.ord = "na" THEN "12_21" ELSE s.ord,
           !.noise = s.noise /\ c.noise > 0,
+          !.tol = IF s.tol \in {"version10", "wrongext"} /\ fr # "v1" THEN "none"
+                  ELSE IF s.tol = "noend" /\ fr # "v2" THEN "none" ELSE s.tol,
           !.omit = {f \in s.omit : o[f] = OptDefault[f]}]
 
 V2(c, s) == [s EXCEPT !.fr = "v2"]
@@ -152,7 +155,10 @@ SingleDim(c) ==
        {Fix(c, [V2(c, b) EXCEPT !.deco = Decos[x]]) : x \in 1..Len(Decos)} \cup
        {Fix(c, [b EXCEPT !.num = Nums[x]]) : x \in 1..Len(Nums)} \cup
        {Fix(c, [V2(c, b) EXCEPT !.lb = Lbs[x]]) : x \in 1..Len(Lbs)} \cup
-       {Fix(c, [b EXCEPT !.acc = Accs[x]]) : x \in 1..Len(Accs)}
+       {Fix(c, [b EXCEPT !.acc = Accs[x]]) : x \in 1..Len(Accs)} \cup
+       {Fix(c, [b EXCEPT !.tol = Tols[x]]) : x \in 1..Len(Tols)} \cup
+       {Fix(c, [V2(c, b) EXCEPT !.tol = "noend"])} \cup
+       {Fix(c, [b EXCEPT !.tol = "version10", !.deco = Decos[x]]) : x \in 1..Len(Decos)}
 
 (* a deterministic spread of combinations of all dimensions *)
 Pick(seq, k, stride) == seq[((k \div stride) % Len(seq)) + 1]
@@ -166,7 +172,9 @@ Combo(c, k) ==
             kwp |-> Pick(KwPerms, k, 13), ref |-> (k \div 4) % 2 = 0,
             mfx |-> (k \div 6) % 2 = 0, noise |-> (k \div 3) % 2 = 0,
             deco |-> Pick(Decos, k, 1), num |-> Pick(Nums, k, 2),
-            lb |-> Pick(Lbs, k, 4), acc |-> Pick(Accs, k, 3)])
+            lb |-> Pick(Lbs, k, 4), acc |-> Pick(Accs, k, 3),
+            tol |-> Pick(<<"none", "none", "version10", "noend", "none", "wrongext">>,
+                         k, 1)])
 
 NCombo == 36
 
@@ -299,7 +307,7 @@ SpellRec(s) ==
     [fr |-> s.fr, unit |-> s.unit, fmt |-> s.fmt, mf |-> s.mf, ord |-> s.ord,
      perm |-> s.perm, omit |-> SetToSeq(s.omit), kwp |-> s.kwp,
      ref |-> s.ref, mfx |-> s.mfx, noise |-> s.noise, deco |-> s.deco,
-     num |-> s.num, lb |-> s.lb, acc |-> s.acc,
+     num |-> s.num, lb |-> s.lb, acc |-> s.acc, tol |-> s.tol,
      \* what the spec expects a reader to find (for the generator's self-check)
      option |-> Render(c, s).option, lines |-> Render(c, s).lines,
      kws |-> Render(c, s).kws]
@@ -309,7 +317,8 @@ ExportRec(k) ==
         SR(s) == [fr |-> s.fr, unit |-> s.unit, fmt |-> s.fmt, mf |-> s.mf,
                   ord |-> s.ord, perm |-> s.perm, omit |-> SetToSeq(s.omit),
                   kwp |-> s.kwp, ref |-> s.ref, mfx |-> s.mfx, noise |-> s.noise,
-                  deco |-> s.deco, num |-> s.num, lb |-> s.lb, acc |-> s.acc]
+                  deco |-> s.deco, num |-> s.num, lb |-> s.lb, acc |-> s.acc,
+                  tol |-> s.tol]
         vs == VariantSeq(cc)
     IN [content |-> cc, base |-> SR(Base(cc)),
         variants |-> [j \in 1..Len(vs) |-> SR(vs[j])]]
